@@ -83,7 +83,17 @@ def print_tree(e, sp, names=None):
         if k == 'undef':
             return '\\isundefined{\\%s}' % ('zzundefined' if a[1] else 'zzdefined')
         if k == 'len':
-            return '\\lengthtest{%s%s%s%s%s}' % (a[1][0], a[1][1], a[2], a[3][0], a[3][1])
+            # a[4] (printing choice, same meaning): per operand 0 = literal, 1 = through a \newdimen register,
+            # 2 = a register holding the NEGATED length, written with a minus sign in front
+            how = a[4] if len(a) > 4 else (0, 0)
+
+            def length(d, h):
+                if not h:
+                    return '%s%s' % (d[0], d[1])
+                n = 'len' + _letters(next(names))
+                pre.append('\\newdimen\\%s \\%s=%s%s%s\\relax ' % (n, n, '-' if h == 2 else '', d[0], d[1]))
+                return ('-' if h == 2 else '') + '\\%s' % n
+            return '\\lengthtest{%s%s%s}' % (length(a[1], how[0]), a[2], length(a[3], how[1]))
         if k == 'paren':
             return '\\(' + next(sp) + expr(a[1]) + next(sp) + '\\)'
         raise ValueError(a)
@@ -176,7 +186,7 @@ def rand_atom(rng, depth, var=False):
     x, y = rng.choice(pairs)
     if rng.random() < 0.5:
         x, y = y, x
-    return ['len', x, rng.choice('<>='), y]
+    return ['len', x, rng.choice('<>='), y, (rng.choice([0, 0, 1, 2]), rng.choice([0, 0, 1, 2]))]
 
 
 def rand_term(rng, depth, var=False):
